@@ -163,6 +163,54 @@ def check_shims_threading(nthreads=3):
     return r["executions"], len(shim_logs), len(seen)
 
 
+def check_list_proxy():
+    """The shim of Manager().list() against the real proxy: the same mini-programs give the same values / exception classes,
+    neither has __iter__, and iterating / list() goes through __len__ and __getitem__ (round trips that can interleave)."""
+    import multiprocessing
+    from . import env
+    progs = [
+        lambda l: (l.append("a"), l.append("b"), list(l))[-1],
+        lambda l: ("a" in l, "z" in l),
+        lambda l: l.remove("z"),
+        lambda l: (l.remove("a"), list(l), len(l))[1:],
+        lambda l: [x for x in l],
+        lambda l: hasattr(l, "__iter__"),
+        lambda l: (l.extend(["c", "d"]), l.index("d"), l.count("c"), l.pop(), l.pop(0), list(l))[1:],
+        lambda l: l[5],
+        lambda l: (l.insert(0, "q"), l.reverse(), l.sort(), list(l))[-1],
+        lambda l: isinstance(l, list),
+        lambda l: str(l),
+        lambda l: l + ["t"],
+    ]
+
+    def run(l):
+        out = []
+        for f in progs:
+            try:
+                out.append(("ok", f(l)))
+            except Exception as e:  # noqa: BLE001
+                out.append((type(e).__name__,))
+        return out
+
+    mgr = multiprocessing.Manager()
+    try:
+        real = run(mgr.list())
+    finally:
+        mgr.shutdown()
+    shim = run(env.SProxyList())
+    assert real == shim, "Manager().list() shim differs from the real proxy:\n%r\n%r" % (real, shim)
+    # iteration is made of round trips
+    calls = []
+
+    class Spy(env.SProxyList):
+        def _rt(self, what):
+            calls.append(what)
+    sp = Spy(["a", "b", "c"])
+    list(sp)
+    assert len(calls) >= 4, "list(proxy) must take one round trip per element (saw %d)" % len(calls)
+    return len(progs), len(calls)
+
+
 def check_reduction(tier="quick"):
     """Terminal observations with the persistent-set reduction == without it."""
     from . import env, engine_t, tscen
@@ -373,6 +421,7 @@ def main(tier="quick"):
     print("selftest: deadlines and sleeps are scheduling points:", ", ".join(check_timeouts()))
     ex, nl, ns = check_shims_threading()
     print("selftest: lock/condition shims: %d interleavings, %d outcomes; real threading showed %d, all among them" % (ex, nl, ns))
+    print("selftest: Manager().list() proxy shim: %d mini-programs equal to the real proxy, list(proxy) = %d round trips" % check_list_proxy())
     for name, a, b, t in check_reduction(tier):
         print("selftest: reduction %-22s %5d executions (unreduced %5d), %d observations, equal sets, replays deterministic" % (
             name, a, b, t))
